@@ -513,7 +513,14 @@ def judgeDisc (c : Case) : String :=
   match c.events.find? fun (cl, _) => !decide (Disc true cl) with
   | none =>
     let follows := c.events.filter fun (cl, _) => !decide (Disc false cl)
-    s!"disc {c.id} ok calls={c.events.length} follow_opens={follows.length}"
+    -- the only legitimate followed open is the procfs magic-link `fd/<n>` of the reopen path
+    let badFollow := follows.find? fun (cl, _) =>
+      match cl with
+      | .openat _ name _ _ => !(allDigits name && !name.isEmpty)
+      | _ => true
+    match badFollow with
+    | some (cl, _) => s!"disc {c.id} BAD followed open of something that is not a procfs fd link: {showCall cl}"
+    | none => s!"disc {c.id} ok calls={c.events.length} follow_opens={follows.length}"
   | some (cl, _) => s!"disc {c.id} BAD {showCall cl}"
 
 /-- replay a sequential history of the C error table through the model -/
